@@ -1,4 +1,10 @@
 ENGINES = [
+    {"name": "E4 ztree", "path": "harness/z/tree_test.go", "serves_properties": ["C10", "C16"],
+     "kind_free_text": "rapid model-based state machine against map[uint64]uint64 with generated page sizes; white-box page-structure invariant"},
+    {"name": "E7 zbloom", "path": "harness/z/bloom_test.go", "serves_properties": ["C19"],
+     "kind_free_text": "rapid op sequences against a reference set; JSON round-trip differential"},
+    {"name": "E3 sketch", "path": "harness/ristretto/sketch_test.go", "serves_properties": ["C18"],
+     "kind_free_text": "rapid op sequences, differential against a reference counter table; exhaustive byte/nibble enumeration"},
     {"name": "E8 simd", "path": "harness/simd/search_test.go", "serves_properties": ["C20"],
      "kind_free_text": "rapid generators + exhaustive enumeration, differential against a reference loop, metamorphic (surroundings)"},
 ]
@@ -6,6 +12,22 @@ NOTES = ("All checks are property-based tests / fuzzers (pgregory.net/rapid v1.3
          "compiled into the packages of /repo's working tree through go test -overlay; see DESIGN.md. "
          "Exit 2 = inconclusive (build failure / wall-clock budget), never a violation.")
 CHECKS = {
+    "C10": dict(engine="E4 ztree", design_ref="DESIGN.md section 4, C10",
+                technique="model-based property testing (rapid state machine vs reference map), generated page sizes, invariant over page structure",
+                text="Generated Set/Get/DeleteBelow/IterateKV-rewrite/Reset histories on trees with 4..255 keys per page, compared with a map after every step (touched keys and neighbours) and completely after DeleteBelow/rewrite/Reset/end, plus the reachable/free page partition invariant. Exploration: finds shallow and medium-depth defects quickly (the DeleteBelow defect in 5 cases), no proof.",
+                note="Trusts the reference map semantics derived from the property text; page sizes below the OS page size are reached through the package variables the repository's own tests already modify."),
+    "C16": dict(engine="E4 ztree", design_ref="DESIGN.md section 4, C16",
+                technique="model-based property testing (rapid state machine) with a generated Close/reopen action; stats and structure comparison across the reopen",
+                text="The C10 state machine on file-backed trees with Reopen drawn anywhere: Stats (minus Allocated), Get/IterateKV agreement with the model and the free-list/reachable partition are checked after every reopen and the run continues, so reuse of recycled pages after a reopen is exercised. Clean close only (no crash faults), as the property states.",
+                note="Page sizes restricted to powers of two 128..4096 (a page size that does not divide the file size is not producible outside tests). msync omissions are invisible through the page cache."),
+    "C18": dict(engine="E3 sketch", design_ref="DESIGN.md section 4, C18",
+                technique="property-based differential testing against a reference counter table + exhaustive enumeration of byte values",
+                text="cmSketch is compared cell by cell with an obviously-correct byte-per-counter table using the sketch's own seeds; tinyLFU bounds (min(n,15) <= estimate <= 16, monotone between resets, exact reset period, halving, marks forgotten, clear) are asserted on generated access sequences; the nibble arithmetic is enumerated exhaustively.",
+                note="In-package access to seeds, rows and the doorkeeper; bloom false positives are allowed for by the bounds."),
+    "C19": dict(engine="E7 zbloom", design_ref="DESIGN.md section 4, C19",
+                technique="property-based testing against a reference set; round-trip (JSON) differential on members and generated probes",
+                text="Generated parameterisations and hash sets including degenerate bit patterns; no-false-negative, AddIfNotHas, Clear and JSON round-trip laws checked on every used hash and up to 200 probes per case.",
+                note="'Has identically for every hash' is sampled (members + probes), not enumerated. NewBloomFilter(0, rate) loops for an astronomically long time and is outside the generated domain (DESIGN.md section 5)."),
     "C20": dict(engine="E8 simd", design_ref="DESIGN.md section 4, C20",
                 technique="property-based testing (rapid) + exhaustive enumeration of lengths and key positions; differential oracle against the reference search, metamorphic relation over surrounding memory",
                 text="Generated (length, contents, following memory, k) cases compared with the portable reference; every even length 0..520 and every first-match position is additionally enumerated with five patterns of trailing memory. Exploration, not proof: 64-bit key contents are sampled.",
